@@ -1,5 +1,5 @@
-(* Transcription of reader/prof/transpiler/planner_selector.go: StreamSelectorPlanner.Process,
-   getMatchers, getMatcherClause, getArrayExists.  A Pyroscope label selector (list of
+(* Transcription of reader/prof/transpiler/planner_selector.go: StreamSelectorPlanner.Process (prof_selector_abs),
+   processIndexed (prof_selector), acceptsAbsent, getMatchers, getMatcherClause, getArrayExists.  A Pyroscope label selector (list of
    name/op/value with the value already unquoted by parser.Str.Unquote) becomes the query that
    selects fingerprints from profiles_series_gin.  Executable definitions only. *)
 From Coq Require Import List ZArith NArith String Ascii Bool.
@@ -87,6 +87,36 @@ Definition prof_selector (gin_table : string) (from_ns to_ns : Z) (sels : list s
   | _ => and_having [Eq (BitSetAnd kv) (IntV (2 ^ Z.of_nat (List.length kv) - 1))] (and_where [Or kv] q1)
   end.
 
-Record fcase := { fc_id : Z; fc_table : string; fc_from_ns : Z; fc_to_ns : Z; fc_cluster : bool; fc_sels : list selector }.
+(* ---------- StreamSelectorPlanner.Process since the absent-label fix ----------
+   `prof_selector` above is processIndexed: every selector on a stored label needs an index row as witness.
+   Process itself first sets apart the selectors on stored labels (not pseudo labels) that accept the empty string
+   (acceptsAbsent: val == "" for =, val != "" for !=, the anchored regular expression matched against "" for =~ / !~;
+   `re_full v p` is the oracle "v matches ^(?:p)$" as in PromSel): a series without the label satisfies them, the index
+   has no row to witness that, so each of them only excludes the series that carry the label with a value it rejects:
+   `fingerprint IN (<processIndexed of the inverse selector>) == 0`, appended to the WHERE in selector order. *)
+Definition sel_accepts_absent (re_full : string -> string -> bool) (s : selector) : bool :=
+  match pseudo_of (sl_name s) with
+  | Some _ => false
+  | None => prom_match_val re_full (sl_op s) (sl_val s) ""
+  end.
+Definition sel_inverse (s : selector) : selector :=
+  {| sl_name := sl_name s;
+     sl_op := match sl_op s with MEq => MNeq | MNeq => MEq | MRe => MNre | MNre => MRe end;
+     sl_val := sl_val s |}.
+Definition prof_not_rejected (gin_table : string) (from_ns to_ns : Z) (s : selector) : expr :=
+  Eq (In (Id "fingerprint") [SubQ (prof_selector gin_table from_ns to_ns [sel_inverse s])]) (IntV 0).
+Definition prof_indexed_sels (re_full : string -> string -> bool) (sels : list selector) : list selector :=
+  filter (fun s => negb (sel_accepts_absent re_full s)) sels.
+Definition prof_absent_sels (re_full : string -> string -> bool) (sels : list selector) : list selector :=
+  filter (sel_accepts_absent re_full) sels.
+Definition prof_selector_abs (re_full : string -> string -> bool) (gin_table : string) (from_ns to_ns : Z) (sels : list selector) : select :=
+  fold_left (fun q s => and_where [prof_not_rejected gin_table from_ns to_ns s] q)
+            (prof_absent_sels re_full sels)
+            (prof_selector gin_table from_ns to_ns (prof_indexed_sels re_full sels)).
+
+(* fc_full: (pattern, value, anchored match) as answered by labels.Matcher.Matches in the harness; the planner only
+   asks about the value "" *)
+Record fcase := { fc_id : Z; fc_table : string; fc_from_ns : Z; fc_to_ns : Z; fc_cluster : bool; fc_sels : list selector;
+                  fc_full : list (string * string * bool) }.
 Definition fcase_sql (c : fcase) : option string :=
-  render (prof_selector (fc_table c) (fc_from_ns c) (fc_to_ns c) (fc_sels c)) (fc_cluster c).
+  render (prof_selector_abs (tbl_lookup (fc_full c)) (fc_table c) (fc_from_ns c) (fc_to_ns c) (fc_sels c)) (fc_cluster c).
